@@ -25,7 +25,7 @@ pub fn is_empty(path: &PathBuf) -> (b: bool)
     ensures b == (path.comps().len() == 0)     //@ clause is_empty.post [C14,C15]
 //@ body
 
-//@ item clean file=src/sys/fs/path.rs fn=clean props=C14,C12,C05
+//@ item clean file=src/sys/fs/path.rs fn=clean props=C14,C12,C05,C01,C16
 //@ sig pub fn clean<T: AsRef<Path>>(path: T) -> PathBuf
 //@ rw R3 1 for
 //@ rw R8 1 ⟦path_buf.push(".");⟧ => ⟦path_buf.push(Component::CurDir);⟧
